@@ -449,6 +449,7 @@ class Session(object):
         self.runs += 1
         self.handed = []
         self.progress = None
+        self.clock = 0.0          # a new process: ProgressLog starts with _lastprogress = 0
         saved_names = (S.MetaGrid, S.SeedProgress, S.TileWorkerPool, U.time)
         S.MetaGrid, S.SeedProgress, S.TileWorkerPool, U.time = RecMetaGrid, RecProgress, StubPool, _FakeTime(self)
         out = io.StringIO()
@@ -598,3 +599,444 @@ def run_model(ctx, name, worlds, max_interrupts, invariants, excused=(), last_ru
             if r.coverage.get(a, (0, 0))[0] == 0:
                 raise tlc.MachineryError('Seeder.tla (%s): action %s was never taken (vacuous run)' % (name, a))
     return r
+
+
+def action_coverage(r):
+    """coverage per action name, including the two parameterised disjuncts of Next (Report, FinalReport)"""
+    cov = dict(r.coverage)
+    extra = []
+    for line in r.out.splitlines():
+        m = re.match(r'^<Next line \d+, col \d+ to line \d+, col \d+ of module Seeder \((\d+) \d+ \d+ \d+\)>: (\d+):(\d+)', line)
+        if m:
+            extra.append((int(m.group(1)), (int(m.group(2)), int(m.group(3)))))
+    extra.sort()
+    for name, (ln, c) in zip(['Report', 'FinalReport'], extra):
+        cov[name] = c
+    cov.pop('Next', None)
+    return cov
+
+
+# ------------------------------------------------------------------------------------------------
+# TLC behaviours -> real code
+# ------------------------------------------------------------------------------------------------
+_WANT = ('lp', 'lpl', 'saved', 'handed', 'phase', 'old', 'nint', 'wid', 'before')
+EVENT_OF = {'EnterRoot': 'enter', 'Enter': 'enter', 'Report': 'report', 'FinalReport': 'report',
+            'NoIntersect': 'step_forward', 'SkipProcessed': 'step_forward', 'LeafForward': 'step_forward',
+            'StepDown': 'step_down', 'StepUp': 'step_up', 'Process': 'process', 'Continue': 'continue'}
+
+
+def parse_sim_light(path):
+    """[(action name, args tuple, {var: raw text})] from a -simulate trace file; values are parsed on demand"""
+    beh = []
+    act = None
+    cur = None
+    var = None
+    with open(path) as f:
+        for line in f:
+            line = line.rstrip('\n')
+            if line.startswith('\\* <') or line.startswith('\\*<'):
+                act = line[line.index('<') + 1:].split(' line ')[0].rstrip('>').strip()
+            elif re.match(r'^STATE_\d+ ==', line):
+                cur = {}
+                var = None
+            elif cur is not None:
+                if line.strip() == '':
+                    if cur:
+                        beh.append((act, cur))
+                    cur = None
+                    continue
+                m = re.match(r'^/\\ (\w+) = (.*)$', line)
+                if m:
+                    var = m.group(1)
+                    cur[var] = m.group(2)
+                elif var is not None:
+                    cur[var] += '\n' + line
+    if cur:
+        beh.append((act, cur))
+    out = []
+    for act, raw in beh:
+        m = re.match(r'^(\w+)(?:\((.*)\))?$', act or 'Init')
+        args = tla.parse_value('<<' + m.group(2) + '>>') if m.group(2) else ()
+        out.append((m.group(1), args, raw))
+    return out
+
+
+def beh_from_error_trace(trace):
+    out = []
+    for act, st in trace:
+        m = re.match(r'^(\w+)(?:\((.*)\))?$', act.strip())
+        name = m.group(1) if m else act
+        out.append((name, None, st))
+    return out
+
+
+def _val(raw, var):
+    v = raw[var]
+    return tla.parse_value(v) if isinstance(v, str) else v
+
+
+def _ids(v):
+    return [[int(a), int(b)] for a, b in v]
+
+
+class Follower(object):
+    """Executes one spec behaviour on the real code, comparing after every action."""
+
+    def __init__(self, beh, wd, rk, workdir):
+        self.beh = beh
+        self.p = 1                      # beh[0] is the initial state
+        self.div = None                 # (index, text)
+        self.steps = 0
+        self.sess = Session(wd, rk, workdir, self.decide_save, self.after_event)
+
+    def _skip_silent(self):
+        while self.p < len(self.beh) and self.beh[self.p][0] == 'Dedup':
+            self.p += 1
+            self.steps += 1
+
+    def _diverge(self, text):
+        if self.div is None:
+            self.div = (self.p, text)
+
+    def decide_save(self):
+        self._skip_silent()
+        if self.p >= len(self.beh):
+            return False
+        name, args, raw = self.beh[self.p]
+        if name not in ('Report', 'FinalReport'):
+            self._diverge('the code reports progress where the model does %s' % name)
+            return False
+        if args:
+            return bool(args[0])
+        # error traces carry no arguments: the decision is visible in the state only if it changes `saved`;
+        # take "save" iff the state after the action differs from the one before
+        prev = self.beh[self.p - 1][2]
+        return _val(raw, 'saved') != _val(prev, 'saved')
+
+    def _compare(self, ev, raw):
+        o = self.sess.obs() if ev is None else ev
+        exp = {'lp': _ids(_val(raw, 'lp')), 'lpl': _val(raw, 'lpl'), 'saved': _ids(_val(raw, 'saved'))}
+        got = {k: o[k] for k in exp}
+        if got != exp:
+            return 'progress/saved state differs: code %s, model %s' % (json.dumps(got), json.dumps(exp))
+        eh = [tuple(t) for t in _val(raw, 'handed')]
+        if eh != self.sess.handed:
+            return 'handed list differs: code %s, model %s' % (self.sess.handed[-3:], eh[-3:])
+        return None
+
+    def after_event(self, ev):
+        """called by the session after every real event; True = interrupt now"""
+        if self.div is not None:
+            return True
+        self._skip_silent()
+        if self.p >= len(self.beh):
+            return True
+        name, args, raw = self.beh[self.p]
+        want = EVENT_OF.get(name)
+        if want != ev['ev']:
+            self._diverge('the code does %s where the model does %s' % (ev['ev'], name))
+            return True
+        if name == 'NoIntersect' or name == 'LeafForward':
+            pass
+        if name == 'SkipProcessed' and ev.get('n') != 1:
+            self._diverge('step_forward(%r) where the model skips a processed subtree' % ev.get('n'))
+            return True
+        if name in ('Report', 'FinalReport') and args:
+            forced = ev['one'] and not args[0]
+            if not forced and bool(ev['wrote']) != bool(args[0]):
+                self._diverge('progress file %s, the model says save=%s' % ('written' if ev['wrote'] else 'not written', args[0]))
+                return True
+            if forced:
+                # progress == 1.0 makes the code save regardless of the throttle: follow the code
+                self.forced_final = True
+                self.p += 1
+                self.steps += 1
+                return self.p >= len(self.beh) or self.beh[self.p][0] == 'Interrupt'
+        if name in ('Enter', 'EnterRoot'):
+            st = _val(raw, 'stack')
+            top = st[-1]
+            if (top['lvl'], list(top['box']), top['total']) != (ev['level'], list(ev['box']), ev['n']):
+                self._diverge('get_affected_level_tiles(level %s, box %s) -> %s tiles; the model enters level %s box %s '
+                              'with %s tiles' % (ev['level'], ev['box'], ev['n'], top['lvl'], list(top['box']), top['total']))
+                return True
+        if name == 'Continue':
+            if ev['old'] != _ids(_val(raw, 'old')):
+                self._diverge('continued with progress %s, the model with %s' % (ev['old'], _ids(_val(raw, 'old'))))
+                return True
+        bad = self._compare(ev, raw)
+        if bad:
+            self._diverge('after %s: %s' % (name, bad))
+            return True
+        self.p += 1
+        self.steps += 1
+        self._skip_silent()
+        if self.p >= len(self.beh):
+            return True
+        return self.beh[self.p][0] == 'Interrupt'
+
+    def run(self):
+        """-> None (conforms) or (index, text)"""
+        sess = self.sess
+        try:
+            guard = 0
+            while self.p < len(self.beh) and self.div is None:
+                guard += 1
+                if guard > 50:
+                    raise tlc.MachineryError('follower does not terminate')
+                if self.beh[self.p][0] == 'Interrupt' and sess.runs == 0:
+                    # killed before the walk started: nothing happened
+                    sess.runs += 1
+                    sess.handed_runs.append([])
+                    res = 'interrupted'
+                else:
+                    res = sess.run_once()
+                if self.div is not None:
+                    break
+                if res == 'interrupted':
+                    if self.p >= len(self.beh):
+                        break
+                    name, args, raw = self.beh[self.p]
+                    if name != 'Interrupt':
+                        self._diverge('the code was interrupted where the model does %s' % name)
+                        break
+                    o = sess.obs()
+                    if o['saved'] != _ids(_val(raw, 'saved')):
+                        self._diverge('after Interrupt: saved progress %s, model %s' % (o['saved'], _ids(_val(raw, 'saved'))))
+                        break
+                    before = set(tuple(t) for t in _val(raw, 'before'))
+                    real_before = set(t for run in sess.handed_runs for t in run)
+                    if before != real_before:
+                        self._diverge('after Interrupt: work done so far differs from the model')
+                        break
+                    self.p += 1
+                    self.steps += 1
+                else:
+                    self._skip_silent()
+                    if self.p < len(self.beh):
+                        self._diverge('seed() returned where the model continues with %s' % self.beh[self.p][0])
+                    break
+            return self.div
+        finally:
+            sess.cleanup()
+
+
+# ------------------------------------------------------------------------------------------------
+# random driving of the real code (code -> spec)
+# ------------------------------------------------------------------------------------------------
+class RandomDriver(object):
+    def __init__(self, rng, cuts, p_save):
+        self.rng = rng
+        self.cuts = list(cuts)      # interrupt the k-th run after cuts[k] events (None/absent: run to the end)
+        self.p_save = p_save
+        self.sess = None
+        self.count = 0
+
+    def decide_save(self):
+        return self.rng.random() < self.p_save
+
+    def after_event(self, ev):
+        self.count += 1
+        k = self.sess.runs - 1
+        return k < len(self.cuts) and self.cuts[k] is not None and self.count >= self.cuts[k]
+
+    def drive(self, wd, rk, workdir):
+        sess = self.sess = Session(wd, rk, workdir, self.decide_save, self.after_event,
+                                   interrupt_exc=self.rng.choice([KeyboardInterrupt, _seed_interrupted()]))
+        try:
+            for _ in range(len(self.cuts) + 2):
+                self.count = 0
+                k = sess.runs
+                if k < len(self.cuts) and self.cuts[k] == 0 and k == 0:
+                    sess.runs += 1
+                    sess.handed_runs.append([])
+                    sess.events.append(dict({'ev': 'interrupt'}, **sess.obs()))
+                    continue
+                if sess.run_once() == 'done':
+                    return sess
+            raise tlc.MachineryError('random driver: seeding does not finish')
+        finally:
+            sess.cleanup()
+
+
+def _seed_interrupted():
+    from mapproxy.seed.seeder import SeedInterrupted
+    return SeedInterrupted
+
+
+def classify_miss(w, t):
+    """a must-tile that was not requested: thin overlap (only a coarser level's 1/10 pixel explains it) or not"""
+    coarse = set(tuple(x) for x in w['mustcoarse'])
+    return 'overlap-below-tenth-pixel-of-coarser-level' if tuple(t) not in coarse else 'other'
+
+
+def check_observed(ctx, wd, w, full, sess, what):
+    """the property statement on the values observed on the real code; returns set of excusable miss causes"""
+    must = set(tuple(t) for t in w['must'])
+    mustnot = set(tuple(t) for t in w['mustnot'])
+    fullset = set(full)
+    res = set()
+    for t in sorted(must - fullset):
+        cause = classify_miss(w, t)
+        res.add(cause)
+        ctx.violation({'clause': 'CompleteRunExact', 'cause': cause},
+                      '%s: an uninterrupted seed run never requests meta tile %s although it overlaps the coverage by more '
+                      'than 1/10 pixel of level %d (%s)' % (wd.name, t, t[2], json.dumps(wd.desc)),
+                      {'kind': 'miss', 'world': wd.desc, 'tile': list(t)})
+    for run in (sess.handed_runs if sess is not None else [full]):
+        for t in run:
+            if t in mustnot:
+                ctx.violation({'clause': 'NoOutside', 'lattice': wd.lattice},
+                              '%s: meta tile %s is requested although it lies outside the coverage (%s)' % (
+                                  wd.name, t, json.dumps(wd.desc)), {'kind': 'outside', 'world': wd.desc, 'tile': list(t)})
+                break
+    if sess is not None and len(sess.handed_runs) > 1:
+        union = set(t for run in sess.handed_runs for t in run)
+        lost = sorted(fullset - union)
+        if lost:
+            ctx.violation({'clause': 'ResumeCovers'},
+                          '%s: interrupted %d time(s) and continued from the saved progress: %d tile(s) of the uninterrupted run '
+                          'are never requested, e.g. %s (%s)' % (wd.name, len(sess.handed_runs) - 1, len(lost), lost[0], what),
+                          {'kind': 'resume', 'world': wd.desc, 'events': sess.events})
+    return res
+
+
+def validate_traces(ctx, name, worlds, traces, excused=(), timeout=1800):
+    d = ctx.sub('trace-' + name)
+    wf = write_worlds(d, worlds)
+    tf = os.path.join(d, 'traces.json')
+    with open(tf, 'w') as f:
+        json.dump(traces, f)
+    mp, cp = tlc.write_mc(d, 'Trace_Seeder', 'MC_Trace',
+                          dict(MaxInterrupts=99, LastRunSaves='both', Excused=set(excused), Planned=False),
+                          spec='TraceSpec', post='TraceAccepted', invariants=INVARIANTS)
+    r = tlc.run(mp, cp, d, workers=1, coverage=False, env={'WORLD_FILE': wf, 'TRACE_FILE': tf}, timeout=timeout)
+    pr = tlc.find_prints(r.out, 'matched')
+    if r.violated and r.violated != 'postcondition':
+        return r, None
+    if not pr:
+        raise tlc.MachineryError('trace validation: no verdict from TLC\n' + r.out[-2000:])
+    mv = pr[-1][1]
+    matched = list(mv) if isinstance(mv, tuple) else [mv[k] for k in sorted(mv)]
+    rejected = [(i, matched[i]) for i in range(len(traces)) if matched[i] < len(traces[i]['ev'])]
+    return r, rejected
+
+
+# ------------------------------------------------------------------------------------------------
+# random real grids and coverages
+# ------------------------------------------------------------------------------------------------
+def _random_grid(rng):
+    from mapproxy.grid import TileGrid
+    from mapproxy.srs import SRS
+    k = rng.choice(['mercator', 'mercator', 'geodetic', 'sqrt2', 'factor', 'custom', 'custom', 'custom-ul'])
+    if k == 'mercator':
+        return k, TileGrid(SRS(3857), origin=rng.choice(['ll', 'ul'])), dict(kind=k)
+    if k == 'geodetic':
+        return k, TileGrid(SRS(4326), bbox=(-180.0, -90.0, 180.0, 90.0), is_geodetic=True), dict(kind=k)
+    if k == 'sqrt2':
+        return k, TileGrid(SRS(3857), res='sqrt2'), dict(kind=k)
+    if k == 'factor':
+        f = rng.choice([1.5, 1.7, 2.5, 3.0])
+        return k, TileGrid(SRS(3857), res=f, levels=14), dict(kind=k, factor=f)
+    # custom resolution list on a non-square extent
+    x0 = rng.uniform(-5e5, 5e5)
+    y0 = rng.uniform(-5e5, 5e5)
+    w = rng.uniform(2e5, 9e5)
+    h = w * rng.uniform(0.35, 1.8)
+    ts = rng.choice([(256, 256), (512, 512), (128, 256), (100, 100), (256, 200)])
+    res = [max(w / ts[0], h / ts[1]) * rng.uniform(0.7, 1.6)]
+    for _ in range(rng.randint(3, 8)):
+        res.append(res[-1] / rng.choice([1.2, 1.5, 2.0, 2.0, 2.5, 3.0, rng.uniform(1.1, 3.5)]))
+    origin = 'ul' if k == 'custom-ul' else 'll'
+    bbox = (x0, y0, x0 + w, y0 + h)
+    return k, TileGrid(SRS(3857), bbox=bbox, res=res, tile_size=ts, origin=origin), dict(
+        kind=k, bbox=list(bbox), res=res, tile_size=list(ts), origin=origin)
+
+
+def _random_polygon(rng, box):
+    import shapely.geometry
+    x0, y0, x1, y1 = box
+    cx, cy = (x0 + x1) / 2, (y0 + y1) / 2
+    n = rng.randint(3, 9)
+    pts = []
+    for i in range(n):
+        a = 2 * math.pi * (i + rng.uniform(-0.3, 0.3)) / n
+        r = rng.uniform(0.25, 1.0)
+        pts.append((cx + math.cos(a) * r * (x1 - x0) / 2, cy + math.sin(a) * r * (y1 - y0) / 2))
+    p = shapely.geometry.Polygon(pts)
+    if not p.is_valid or p.area <= 0:
+        p = shapely.geometry.box(*box)
+    return p
+
+
+def random_world(rng, idx, near_border=False):
+    """-> WorldDef (real float grid) or None"""
+    import shapely.geometry
+    import shapely.ops
+    from mapproxy.srs import SRS
+    from mapproxy.util.coverage import BBOXCoverage, GeomCoverage, MultiCoverage
+    kind, g, gdesc = _random_grid(rng)
+    last = rng.randint(1, min(g.levels - 1, 11))
+    sx = g.resolutions[last] * g.tile_size[0]
+    sy = g.resolutions[last] * g.tile_size[1]
+    gb = g.bbox
+    meta = rng.choice([(1, 1), (1, 1), (2, 2), (3, 2), (4, 4)])
+
+    def rbox(scale=1.0):
+        w = sx * meta[0] * rng.uniform(0.6, 3.2) * scale
+        h = sy * meta[1] * rng.uniform(0.6, 3.2) * scale
+        w = min(w, (gb[2] - gb[0]) * 0.9)
+        h = min(h, (gb[3] - gb[1]) * 0.9)
+        x = rng.uniform(gb[0], gb[2] - w)
+        y = rng.uniform(gb[1], gb[3] - h)
+        if near_border:
+            # one edge closer than 1/10 pixel of a coarser level to a tile border of that level
+            k = rng.randint(0, max(0, last - 1))
+            span = g.resolutions[k] * g.tile_size[0]
+            d = g.resolutions[k] / 10.0 * rng.uniform(0.15, 0.85)
+            n = int((x - gb[0]) / span)
+            border = gb[0] + (n + 1) * span
+            if border + w < gb[2]:
+                x = border - d
+        return (x, y, x + w, y + h)
+
+    ck = rng.choice(['bbox', 'bbox', 'poly', 'poly', 'multi', 'srs-bbox', 'srs-poly'])
+    if g.srs != SRS(3857) and ck.startswith('srs'):
+        ck = 'poly'
+    desc = dict(grid=gdesc, cov=ck)
+    if ck == 'bbox':
+        b = rbox()
+        cov = BBOXCoverage(b, g.srs)
+        geom = shapely.geometry.box(*b)
+        desc['bbox'] = list(b)
+    elif ck == 'poly':
+        poly = _random_polygon(rng, rbox(1.3))
+        cov = GeomCoverage(poly, g.srs)
+        geom = poly
+        desc['wkt'] = poly.wkt
+    elif ck == 'multi':
+        b1, b2 = rbox(), rbox()
+        p2 = _random_polygon(rng, b2)
+        cov = MultiCoverage([BBOXCoverage(b1, g.srs), GeomCoverage(p2, g.srs)])
+        geom = shapely.ops.unary_union([shapely.geometry.box(*b1), p2])
+        desc['bbox'] = list(b1)
+        desc['wkt'] = p2.wkt
+    else:
+        # coverage given in EPSG:4326 and transformed to the grid SRS as mapproxy-seed does
+        b = rbox(1.3)
+        ll = g.srs.transform_bbox_to(SRS(4326), b)
+        if ck == 'srs-bbox':
+            cov = BBOXCoverage(tuple(ll), SRS(4326)).transform_to(g.srs)
+            geom = shapely.geometry.box(*cov.bbox)
+            desc['llbbox'] = list(ll)
+        else:
+            poly = _random_polygon(rng, ll)
+            cov = GeomCoverage(poly, SRS(4326)).transform_to(g.srs)
+            geom = cov.geom
+            desc['llwkt'] = poly.wkt
+    nlev = rng.randint(1, min(4, last + 1))
+    levels = sorted(set(rng.sample(range(0, last + 1), nlev - 1) + [last]))
+    if rng.random() < 0.3:
+        levels = list(range(max(0, last - rng.randint(0, 5)), last + 1))
+    skip = rng.choice([0, 0, 0, 1, 2, 3])
+    desc.update(levels=levels, meta=list(meta), skip=skip, near_border=near_border)
+    return WorldDef('r%d-%s-%s' % (idx, kind, ck), g, meta, cov, levels, skip=skip, cov_geom=geom, desc=desc)
